@@ -309,4 +309,29 @@ example : ((twoTriangles.mkVertex 9 2 2).mkEdge 9 3 9).Consistent = true := by d
 
 example : ∀ p ∈ twoTriangles.vertices, ∃ q ∈ twoTriangles.cells, p.2.id ∈ q.2.verts := by decide +kernel
 
+/-! non-vacuity of `ofLists_consistent_loops`: an input with a self-loop (edge 3 from vertex 2 to itself), which
+    `WFInput` rejects, satisfies its hypotheses and is consistent -/
+example : let vs : List (Id × Rat × Rat) := [(0,0,0),(1,1,0),(2,0,1)]
+    let es : List (Id × Id × Id) := [(0,0,1),(1,1,2),(2,2,0),(3,2,2)]
+    let cs : List (Id × List Id) := [(0,[0,1,2])]
+    (vs.map (·.1)).Nodup ∧ (es.map (·.1)).Nodup ∧ (cs.map (·.1)).Nodup ∧
+    (∀ e ∈ es, e.2.1 ∈ vs.map (·.1) ∧ e.2.2 ∈ vs.map (·.1)) ∧
+    (∀ c ∈ cs, c.2.Nodup ∧ ∀ v ∈ c.2, v ∈ vs.map (·.1)) ∧
+    (∀ c ∈ cs, ∀ ab ∈ cyclicPairs c.2,
+      ∃ e ∈ es, (e.2.1 = ab.1 ∧ e.2.2 = ab.2) ∨ (e.2.1 = ab.2 ∧ e.2.2 = ab.1)) ∧
+    (ofLists vs es cs).Consistent = true ∧ ¬ (∀ e ∈ es, e.2.1 ≠ e.2.2) := by
+  decide +kernel
+
+/-! rotated and reversed cycles, permuted dictionaries: the two triangles again -/
+example : (ofLists [(3, 1, 1), (0, 0, 0), (2, 0, 1), (1, 1, 0)]
+    [(4, 3, 2), (0, 0, 1), (2, 2, 0), (1, 1, 2), (3, 1, 3)] [(1, [2, 1, 3]), (0, [2, 1, 0])]).Consistent = true := by
+  decide +kernel
+
+/-! hypotheses of `mkCell_consistent`: closing the quadrilateral 0-1-3-2 over the two triangles -/
+example : (twoTriangles.cell? 2).isNone = true ∧ [(0 : Id), 1, 3, 2].Nodup ∧
+    (∀ v ∈ [(0 : Id), 1, 3, 2], (twoTriangles.vertex? v).isSome = true) ∧
+    (∀ ab ∈ cyclicPairs [(0 : Id), 1, 3, 2], twoTriangles.joined ab.1 ab.2 = true) ∧
+    (twoTriangles.mkCell 2 [0, 1, 3, 2]).Consistent = true := by
+  decide +kernel
+
 end Forsys
